@@ -111,6 +111,7 @@ func c05(x *mon.Ctx) {
 	}
 	opts := []opt{{"coll+crl", true, true}, {"coll", true, false}, {"base", false, false}, {"crl-without-coll", false, true}}
 	var cases []*world.Case
+	on := opts[0]
 	twinOf := map[*world.World]*world.Case{} // the unbroken case of each original world
 	add := func(w *world.World, class, param, expect string, o opt) {
 		c := w.Case(world.LCrl, class, param+"/"+o.name)
@@ -194,12 +195,54 @@ func c05(x *mon.Ctx) {
 		}
 		add(ws, "shared-signer/twin", "again", "accept", opts[0])
 	}
+	// ---- serial numbers of unusual shape (top octet below 0x10, very short, 32 bytes, top bit set in the first content octet)
+	for sname, sb := range map[string][]byte{
+		"top-octet-07": append([]byte{0x07, 0xa1}, randBytes(x.Rand("s1"), 17)...), "top-nibble-zero-short": {0x0a, 0xbc}, "one-byte": {0x05},
+		"32-bytes-01ff": append([]byte{0x01, 0xff}, randBytes(x.Rand("s2"), 30)...), "high-bit-first-octet": append([]byte{0x00, 0xf3}, randBytes(x.Rand("s3"), 17)...),
+		"leading-zero-octets": {0x00, 0x00, 0x09, 0x10},
+	} {
+		serial := new(big.Int).SetBytes(sb)
+		for _, role := range []string{"signer", "intermediate", "leaf"} {
+			ws := world.Honest(x.Rand("odd-serial"+sname+role), world.HonestOpts{Shape: world.QuoteShape{AuthLen: 32}})
+			var rootRev, pckRev []*big.Int
+			switch role {
+			case "signer":
+				t := world.TcbSignTemplate(world.Far)
+				t.SerialNumber = serial
+				ws.PKI.TcbSign = world.Issue(t, ws.PKI.Root, ws.PKI.TcbSign.Key)
+				ws.Resign()
+				rootRev = []*big.Int{serial}
+			case "intermediate":
+				t := world.InterTemplate(world.CNPlatform, world.Far)
+				t.SerialNumber = serial
+				ws.PKI.Inter = world.Issue(t, ws.PKI.Root, ws.PKI.Inter.Key)
+				ws.PKI.Leaf = world.Issue(world.LeafTemplate(world.Far, world.SgxExtension(ws.P)), ws.PKI.Inter, ws.PKI.Leaf.Key)
+				ws.Q.Chain = world.ChainPEM(false, ws.PKI.Leaf, ws.PKI.Inter, ws.PKI.Root)
+				ws.Resign()
+				rootRev = []*big.Int{serial}
+			case "leaf":
+				t := world.LeafTemplate(world.Far, world.SgxExtension(ws.P))
+				t.SerialNumber = serial
+				ws.PKI.Leaf = world.Issue(t, ws.PKI.Inter, ws.PKI.Leaf.Key)
+				ws.Q.Chain = world.ChainPEM(false, ws.PKI.Leaf, ws.PKI.Inter, ws.PKI.Root)
+				pckRev = []*big.Int{serial}
+			}
+			ws.MakeCRLs(nil, nil)
+			twin(ws)
+			add(ws, "odd-serial/twin", sname+"/"+role, "accept", on)
+			w := ws.Clone()
+			w.MakeCRLs(rootRev, pckRev)
+			add(w, "odd-serial/revoked", sname+"/"+role, "reject", on)
+			w2 := ws.Clone()
+			w2.MakeCRLs(append([]*big.Int{big.NewInt(77)}, append(rootRev, big.NewInt(78))...), append([]*big.Int{big.NewInt(77)}, pckRev...))
+			add(w2, "odd-serial/revoked-among-others", sname+"/"+role, "reject", on)
+		}
+	}
 	// ---- CRL signers
 	other := world.NewPKI(world.Far, world.SgxExtension(base.P)) // look-alike CAs: same names, other keys
 	foreignRoot := &world.Cert{Cert: base.PKI.Root.Cert, Key: world.NewKey()} // signs "as" the root with a key that is not the root's
 	foreignInter := &world.Cert{Cert: base.PKI.Inter.Cert, Key: world.NewKey()}
 	this, next := world.Epoch.Add(-world.Day), world.Epoch.Add(30*world.Day)
-	on := opts[0]
 	for name, c := range map[string]*world.Cert{"other-ca(root)": base.PKI.Root, "foreign-key-same-name": foreignInter, "lookalike-intermediate": other.Inter, "lookalike-root": other.Root, "leaf-key": base.PKI.Leaf, "tcb-signer": base.PKI.TcbSign} {
 		w := base.Clone()
 		w.PckCRL = world.MkCRL(c, this, next, nil)
@@ -312,6 +355,8 @@ func c05(x *mon.Ctx) {
 	}
 	x.Require("shared-signer/twin", 4, 0, 4)
 	x.Require("shared-signer/revoked/target", 0, 1, 1)
+	x.Require("odd-serial/twin", 18, 0, 18)
+	x.Require("odd-serial/revoked", 0, 18, 18)
 	x.Require("pck-crl-signed-by", 0, 6, 6)
 	x.Require("pck-crl-and-issuer-chain-from-lookalike-pki", 0, 3, 3)
 	x.Require("root-crl-signed-by", 0, 6, 6)
